@@ -21,7 +21,7 @@ from ..paths import Path, PathEnumerator
 from ..report import Report
 from ..sym import FALSE, NONE, TRUE, Evaluator, Frame, Term, as_lin, atoms_of, lin, number, show, subst, subterms, sym, t_add, t_scale
 from .c09 import CC, REGIONS, TAIL, p1, qec_paths, region_path, reps_of, sub_circuits
-from .c12 import K, KernelCase, ONE, ZERO, resolve_max, x1, x2, x3
+from .c12 import K, KernelCase, ONE, ZERO, resolve_max, x1, x2, x3, x4
 from .common import devar, share_rule
 
 
@@ -36,6 +36,9 @@ def check(model: Model, rep: Report, tier: str):
     share_rule(rep, model, lambda m, r: p1(m, r, "C13.M1"), "C13.M1", rep.rules_text.get("C13.M1", ""))
     share_rule(rep, model, x2, "C13.M1", rep.rules_text.get("C13.M1", ""))
     share_rule(rep, model, x3, "C13.M1", rep.rules_text.get("C13.M1", ""))
+    share_rule(rep, model, x4, "C13.M4", "what the experiment kernel reports for a block of n rounds is read from THE kernel of that block (selected by its own round count, over the "
+                                         "whole kernel list) and translated per experiment repetition by the cycle length (= C12.X4): a getter that answers with another block's "
+                                         "indices disagrees with the circuit block by block even when all totals agree")
 
 
 def _measure_emits(model: Model, fname: str, module: str = CC):
